@@ -588,6 +588,9 @@ class Sym:
                 return None
             return None
         if k == "try":
+            kp_ = self.known_payload(t[1])
+            if kp_ is not None:
+                return self.poly(kp_)
             # audited library summary (winnow): `empty.value(v).parse_next(i)?` is v — `empty` always succeeds without
             # consuming input and `value` replaces its output by a clone of v (how the `seq!` parsers of
             # detector::chronobox fill fields computed from an earlier token)
@@ -1209,6 +1212,9 @@ class Sym:
                 return "%s?" % self.name(strip(t[1])[1])        # Ok payload: the value of `X?`
             return "%s.%d" % (self.name(t[1]), t[2])
         if k == "try":
+            kp_ = self.known_payload(t[1])
+            if kp_ is not None:
+                return self.arg_name(kp_)
             ty_ = self.type_of(t[1])
             if ty_ is not None and ty_.get("k") == "adt" and ty_.get("p", "").endswith("option::Option"):
                 return "(%s as Some).0" % self.name(t[1])      # `opt?` is the payload of `Some`
@@ -1400,6 +1406,11 @@ class Sym:
                 x = strip(inner[2][0])
                 cont = (rel == "in" and vs == [0]) or (rel == "notin" and vs == [1])
                 brk = (rel == "in" and vs == [1]) or (rel == "notin" and vs == [0])
+                ka = self.known_result(x)
+                if ka is not None and (cont or brk):
+                    # `?` on a value this path has just built (an expanded helper's `Ok(v)` / `Err(e)`): decided
+                    good = ka in ("Ok", "Some")
+                    return [] if good == cont else [("false",)]
                 if cont and x[0] == "call" and not getattr(self, "unique_locals", False):
                     # `helper(args)?` continues iff every `?` inside the private helper continues
                     from .terms import try_helper_summary, subst_params
@@ -1662,6 +1673,43 @@ class Sym:
         rp = self.region_poly(t)
         if rp is not None:
             return self.rp_name(rp)
+        return None
+
+    def known_result(self, x):
+        """"Ok" / "Err" / "Some" / "None" when the term is such an aggregate on the current path (a multi-definition
+        local resolved through the path), else None"""
+        x = strip(x)
+        for _ in range(3):
+            if x[0] == "var" and self.path_blocks is not None:
+                try:
+                    ds = self.var_defs(x[1], x[2] if len(x) > 2 else None)
+                except Exception:
+                    ds = None
+                if ds and len(ds) == 1:
+                    x = strip(ds[0])
+                    continue
+            break
+        if x[0] == "aggr" and x[1].startswith("adt:"):
+            v = x[1].rsplit("::", 1)[-1]
+            if x[1].endswith(("result::Result::Ok", "result::Result::Err", "option::Option::Some", "option::Option::None")):
+                return v
+        return None
+
+    def known_payload(self, x):
+        """payload term of a known Ok(..) / Some(..) on the current path"""
+        x = strip(x)
+        for _ in range(3):
+            if x[0] == "var" and self.path_blocks is not None:
+                try:
+                    ds = self.var_defs(x[1], x[2] if len(x) > 2 else None)
+                except Exception:
+                    ds = None
+                if ds and len(ds) == 1:
+                    x = strip(ds[0])
+                    continue
+            break
+        if x[0] == "aggr" and x[1].endswith(("result::Result::Ok", "option::Option::Some")) and len(x[2]) == 1:
+            return x[2][0]
         return None
 
     def enum_of(self, place_term):
